@@ -214,12 +214,25 @@ def cells(prop, tier):
     q = 'quick'
     lp = prop.lower()
     uw = prop == 'C07'
-    for own in (True, False):
+    from harness.batcher import parts, product_pre
+    for own in ((True,) if uw else (True, False)):
         for cancel in ((True, False) if uw else (True,)):
-            out.append(Cell(name='%s_foreign_own%d_cancel%d' % (lp, own, cancel), sig='d1: int, d2: int, dur: int, fail0: bool, prio_idx: int, p1: int',
-                            pre=['0 <= d1 <= 12 and 0 <= d2 <= 2 and 0 <= dur <= 3 and 0 <= prio_idx <= 1 and 0 <= p1 <= 110'],
-                            body='H.scen(%r, d1, d2, dur, fail0, %r, %r, %r, prio_idx, p1)' % (prop, uw, cancel, own),
-                            tier=q, timeout=1200, family=lp + '_foreign', weight=5))
+            # quick: fixed function duration and priority order, every single pre-emption, arrival delay partitioned around the timeout
+            for sfx, pre in product_pre([parts('d1', [(0, 8), (9, 11), (12, 14)])]):
+                out.append(Cell(name='%s_foreign_own%d_cancel%d_p%s' % (lp, own, cancel, sfx), sig='d1: int, d2: int, p1: int',
+                                pre=[pre, '0 <= d2 <= 1 and 0 <= p1 <= 110'],
+                                body='H.scen(%r, d1, d2, 2, False, %r, %r, %r, 0, p1)' % (prop, uw, cancel, own),
+                                tier=q, timeout=900, family=lp + '_foreign', weight=5))
+            # thorough: symbolic duration, failing first invocation, both priority orders
+            for pr in (0, 1):
+                for sfx, pre in product_pre([parts('d1', [(0, 8), (9, 11), (12, 14)]), parts('dur', [(0, 1), (2, 3)])]):
+                    out.append(Cell(name='%s_foreign_full_own%d_cancel%d_prio%d_p%s' % (lp, own, cancel, pr, sfx),
+                                    sig='d1: int, d2: int, dur: int, fail0: bool, p1: int',
+                                    pre=[pre, '0 <= d2 <= 2 and 0 <= p1 <= 130'],
+                                    body='H.scen(%r, d1, d2, dur, fail0, %r, %r, %r, %d, p1)' % (prop, uw, cancel, own, pr),
+                                    tier='thorough', timeout=4000, family=lp + '_foreign', weight=5))
+    if tier != 'thorough':
+        out = [c for c in out if c.tier == 'quick']
     out.append(Cell(name='twin_%s_foreign' % lp, sig='d1: int, p1: int', pre=['0 <= d1 <= 14 and 0 <= p1 <= 3'],
                     body='H.twin(%r, d1, p1)' % prop, expect='refute', timeout=300, family=lp + '_foreign'))
     if tier == 'thorough':
